@@ -38,14 +38,28 @@ TRUSTED_BASE = [
     "(differential correspondence on encoded, damaged and random streams)",
 ]
 ASSUMPTIONS = [
-    "K = -1 (Group 4), Columns >= 1; uncompressed-mode extension codes are outside T.6 conforming output and are "
-    "reported by the model as `unmodelled` (such damaged inputs are skipped by the tie)",
+    "K = -1 (Group 4), Columns >= 1 (or absent = 1728); the encoder does not use the optional uncompressed-mode "
+    "extension (the decoder's handling of it is modelled and tie-checked on crafted token streams, but no "
+    "theorem is stated about it)",
     "an encoder may choose pass whenever b2 < a1, vertical whenever |a1-b1| <= 3 and horizontal always; run lengths "
     "are coded as k x 2560 + one make-up + one terminating code (T.4)",
     "PDFStream route: the stream dictionary is given as parsed objects (and, on a sample, through a PDF file with a "
     "correct /Length); stream framing itself belongs to C03",
 ]
-STATEMENT_STATUS: Dict[str, str] = {}
+STATEMENT_STATUS: Dict[str, str] = {
+    "tables_prefix_free": "proved (kernel evaluation of the regenerated tables)",
+    "trie_decodes_table": "proved: BitParser.add builds tries whose leaves are exactly the table entries",
+    "tables_are_T4": "proved: regenerated WHITE/BLACK = frozen T.4 tables, MODE contains the T.6 mode codes",
+    "trie_lookup": "proved: every T.4/T.6 code word leads to the leaf of its symbol",
+    "run_rt": "proved for every run length and both colours (k x 2560 + make-up + terminating)",
+    "encodeLine_fuel": "proved: the encoder's fuel cur.length+1 is never exhausted",
+    "line_rt": "proved at full strength: every width >= 1, reference line, line and every mix of pass/vertical/"
+               "horizontal choices (no _partial variant needed)",
+    "feedbytes_is_flat": "proved: byte loop with ByteSkip = flat bit semantics",
+    "image_rt": "proved at full strength: all widths >= 1, heights >= 0, choices, EncodedByteAlign, EOFB, BlackIs1",
+    "stream_rt": "proved: same through the parameter dictionary with ISO defaults for absent keys "
+                 "(Columns 1728 after fix 8b16a54)",
+}
 CLASSIFIERS: Dict[str, Any] = {}
 
 
@@ -211,7 +225,7 @@ def table_sanity() -> None:
 
 # =========================================================================== implementation adapters
 
-ROUTES = ("func", "stream", "stream-abbrev", "pdf")
+ROUTES = ("func", "stream", "stream-abbrev", "pdf", "stream-chain")
 
 
 def impl_decode(data: bytes, K: Any, cols: Any, align: Any, rev: Any, route: str = "func",
@@ -233,6 +247,13 @@ def impl_decode(data: bytes, K: Any, cols: Any, align: Any, rev: Any, route: str
             else:
                 attrs = {"F": [LIT("CCF")], "DP": [params], "Length": len(data)}
             out = PDFStream(attrs, data).get_data()
+        elif route == "stream-chain":
+            # CCITTFaxDecode as the second filter of a chain, parameters paired by position
+            from pdfminer.pdftypes import PDFStream
+            from pdfminer.psparser import LIT
+            hexed = data.hex().upper().encode() + b">"
+            attrs = {"Filter": [LIT("ASCIIHexDecode"), LIT("CCITTFaxDecode")], "DecodeParms": [None, params]}
+            out = PDFStream(attrs, hexed).get_data()
         elif route == "pdf":
             from pdfminer.pdfdocument import PDFDocument
             from pdfminer.pdfparser import PDFParser
@@ -558,7 +579,7 @@ def gen_case(rng, i: int, big_every: int = 20) -> Case:
     rows: List[List[int]] = []
     for _ in range(h):
         rows.append(gen_row(rng, w, rows[-1] if rows else None))
-    route = ROUTES[(i // 3) % 3] if i % 41 else "pdf"
+    route = (ROUTES[(i // 3) % 3] if i % 41 else "pdf") if i % 17 else "stream-chain"
     return Case(w, rows, gen_choices(rng, rows, w), rng.random() < 0.5, rng.random() < 0.5, rng.random() < 0.7,
                 route, "rand-big" if w >= 2000 else ("rand-mid" if w >= 63 else "rand-small"),
                 omit=rng.random() < 0.3)
@@ -634,6 +655,9 @@ def run_exhaustive(ctx: C.Ctx, b: Batch) -> None:
 def run_structured(ctx: C.Ctx, b: Batch) -> None:
     """Single runs at every threshold length, in both colours, at both line ends, coded in horizontal mode."""
     rng = ctx.rng
+    for j, w in enumerate((1, 8, 9, 1728)):     # images without rows
+        for e in (1, 0):
+            b.add_rt(Case(w, [], [], j % 2, (j // 2) % 2, e, ROUTES[j % 3], "no-rows", omit=(w == 1728)))
     lens = RUN_LENGTHS if ctx.tier == "thorough" else rng.sample(RUN_LENGTHS, 10) + [64, 2560, 2624]
     k = 0
     for n in lens:
@@ -666,9 +690,44 @@ def run_random(ctx: C.Ctx, b: Batch) -> None:
         b.add_rt(gen_case(rng, i, 60 if ctx.tier == "quick" else 20))
 
 
+UNCOMPRESSED_CODES = ["1", "01", "001", "0001", "00001", "000001", "00000011", "00000010", "000000011",
+                      "000000010", "0000000011", "0000000010", "00000000011", "00000000010"]
+
+
+def gen_token_stream(rng) -> bytes:
+    """A syntactically plausible but unconstrained token sequence: mode codes in any order (vertical codes that
+    move left, passes at the end of a line, ...), horizontal runs of arbitrary length, and the uncompressed-mode
+    extension with its terminators."""
+    bits = []
+    color = 1
+    for _ in range(rng.randint(1, 14)):
+        k = rng.random()
+        if k < 0.35:
+            bits.append(T6_MODE[rng.choice([0, 0, 1, -1, 2, -2, 3, -3])])
+        elif k < 0.5:
+            bits.append(T6_MODE["p"])
+        elif k < 0.75:
+            bits.append(T6_MODE["h"] + code_run(rng.choice([0, 1, 2, 5, 63, 64, 70, 130]), color)
+                        + code_run(rng.choice([0, 1, 3, 8, 64, 65]), 1 - color))
+        elif k < 0.95:
+            bits.append("0000001111")
+            for _ in range(rng.randint(0, 6)):
+                bits.append(rng.choice(UNCOMPRESSED_CODES[:6]))
+            if rng.random() < 0.8:
+                bits.append(rng.choice(UNCOMPRESSED_CODES[6:]))
+        else:
+            bits.append(rng.choice(["0000001000", "00000001", T6_MODE["e"]]))
+        if rng.random() < 0.1:
+            color = 1 - color
+    return bits_to_bytes("".join(bits))
+
+
 def run_damaged(ctx: C.Ctx, b: Batch) -> None:
     """Tie only: the model must agree with the code on streams no encoder produces."""
     rng = ctx.rng
+    for i in range(ctx.n(1500, 20000)):
+        w = rng.choice([1, 2, 3, 5, 8, 9, 16, 17, 40])
+        b.add_dec(gen_token_stream(rng), -1, w, rng.random() < 0.5, rng.random() < 0.5, tag="token-stream")
     for i in range(ctx.n(2000, 20000)):
         w = rng.choice([1, 2, 3, 5, 8, 9, 16, 17, 40, 70])
         k = rng.random()
